@@ -511,7 +511,11 @@ func c08Attachment(ck *c08Checker) int64 {
 						r.L2Advs = []metallbv1beta1.L2Advertisement{{ObjectMeta: metav1.ObjectMeta{Name: "l2a"}, Spec: metallbv1beta1.L2AdvertisementSpec{
 							IPAddressPools: nm, IPAddressPoolSelectors: ps, NodeSelectors: ns, Interfaces: []string{"eth0"}}},
 							// a second advertisement that selects everything, to check it does not disturb the first
-							{ObjectMeta: metav1.ObjectMeta{Name: "l2all"}, Spec: metallbv1beta1.L2AdvertisementSpec{Interfaces: []string{"eth7"}}}}
+							{ObjectMeta: metav1.ObjectMeta{Name: "l2all"}, Spec: metallbv1beta1.L2AdvertisementSpec{Interfaces: []string{"eth7"}}},
+							// a third one with the interfaces of the first and every node (a superset of whatever the first selects):
+							// another advertisement, attached next to the first
+							{ObjectMeta: metav1.ObjectMeta{Name: "l2b-same-interfaces-all-nodes"}, Spec: metallbv1beta1.L2AdvertisementSpec{
+								IPAddressPools: nm, IPAddressPoolSelectors: ps, Interfaces: []string{"eth0"}}}}
 					}
 					if proto != "l2" {
 						bns := ns
